@@ -450,8 +450,8 @@ package txmgr
 // L4 completeness half: the guards that decide whether a read credit is counted are exactly the specification
 // (confirmations against minConf; consensus spendability and mempool state; the class tests).  Together with the
 // per-iteration clauses above: a credit is added to a column exactly when the rule says so.
-//@   if#10 guard[C01] when cred.block.Height <= syncHeight :: mathint(syncHeight) - mathint(cred.block.Height) + 1 >= mathint(minConf)
-//@   if#12 guard[C01] when cred.block.Height <= syncHeight :: consensusSpendable(cred.maturity, cred.block.Height, syncHeight) && !poolSpent(txpool, cred)
+//@   if#10 guard[C01] when cred.block.Height <= syncHeight && syncHeight < 18446744073709551615 :: mathint(syncHeight) - mathint(cred.block.Height) + 1 >= mathint(minConf)
+//@   if#12 guard[C01] when cred.block.Height <= syncHeight && syncHeight < 18446744073709551615 :: consensusSpendable(cred.maturity, cred.block.Height, syncHeight) && !poolSpent(txpool, cred)
 //@   if#13 guard[C01] cred.flags.Class == ClassBindingUtxo
 //@   if#15 guard[C01] cred.flags.Class == ClassStakingUtxo
 //@   loop#2 step[C17] has(ret, strOf(cred.scriptHash)) && amt(curBal(ret, cred).Spendable) != old(amt(ret[cur(strOf(cred.scriptHash))].Spendable)) ==> consensusSpendable(cred.maturity, cred.block.Height, syncHeight)
